@@ -9,6 +9,8 @@ import RdVerif.Model.Units
 import RdVerif.Model.DriverInv
 import RdVerif.Model.Queries
 import RdVerif.Model.Diagram
+import RdVerif.Model.DriverDs
+import RdVerif.Model.ReachWF
 import RdVerif.Gen.Icrp107.Data
 
 namespace RdVerif.Driver
@@ -40,6 +42,9 @@ structure State where
   stable : List (List Ch) := []
   wF : World Float := DriverInv.emptyWorld
   wQ : World Rat := DriverInv.emptyWorld
+  /-- datasets loaded at run time (`ds_new … ds_done <name>`) -/
+  dss : List (String × Dataset) := []
+  bld : DriverDs.Build := {}
 
 def decAmount : String → Option AmountKind
   | "nonneg" => some .nonneg | "negative" => some .negative | "nan" => some .nan
@@ -78,9 +83,8 @@ def decN0 (t : String) : Option N0 :=
     | [i, a] => do let i ← i.toNat?; let a ← decRat a; pure (i, a)
     | _ => none)
 
-def dsByName : String → Option Dataset
-  | "icrp107" => some Gen.icrp107
-  | _ => none
+def dsLookup (dss : List (String × Dataset)) (name : String) : Option Dataset :=
+  if name == "icrp107" then some Gen.icrp107 else (dss.find? (fun p => p.1 == name)).map (·.2)
 
 def decStr (t : String) : Option String := (decCodes t).map unS
 
@@ -92,8 +96,17 @@ def decKey : List String → Option Key
   | ["other"] => some Key.other
   | _ => none
 
-def handle (st : State) (req : List String) : State × String :=
+def handleMain (st : State) (req : List String) : State × String :=
+  let dsByName := dsLookup st.dss
   match req with
+  | ["ds_done", name] =>
+    let ds := DriverDs.finish st.bld
+    ({ st with dss := (name, ds) :: st.dss.filter (fun p => p.1 != name), bld := {} }, s!"ok {ds.n}")
+  | ["ds_wf", name] =>
+    match dsByName name with
+    | some ds => (st, s!"ok {wellFormedB ds} " ++ DriverDs.showVerdicts ds)
+    | none => (st, "bad-request")
+  | ["ds_drop", name] => ({ st with dss := st.dss.filter (fun p => p.1 != name) }, "ok")
   | "fracs" :: xs =>
     match xs.mapM decRat with
     | some l => (st, "ok " ++ " ".intercalate ((fracs l).map encRat))
@@ -144,6 +157,14 @@ def handle (st : State) (req : List String) : State × String :=
     | some ds, some i =>
       (st, "ok " ++ " ".intercalate ((get2 ds.links i []).map (fun l =>
         s!"{encCodes l.name}:{encRat l.bf}:{encCodes (l.mode.toList.map Char.toNat)}")))
+    | _, _ => (st, "bad-request")
+  | ["reach_wf", dsn] =>
+    match dsByName dsn with
+    | some ds => (st, s!"ok {reachWFb ds}")
+    | none => (st, "bad-request")
+  | ["diagram_ok", dsn, root] =>
+    match dsByName dsn, root.toNat? with
+    | some ds, some root => (st, s!"ok {diagramOk ds root}")
     | _, _ => (st, "bad-request")
   | ["diagram", dsn, root] =>
     match dsByName dsn, root.toNat? with
@@ -220,5 +241,15 @@ def handle (st : State) (req : List String) : State × String :=
     match handleNuclide req with
     | some r => (st, r)
     | none => (st, "bad-request")
+
+/-- dataset-builder lines (`ds_new`, `ds_nuc`, `ds_link`, `ds_par`, `ds_cx`, `ds_cix`, `ds_cf`, `ds_cif`) go to the
+builder; everything else to `handleMain` -/
+def handle (st : State) (req : List String) : State × String :=
+  let c := req.headD ""
+  if c.startsWith "ds_" && c != "ds_done" && c != "ds_wf" && c != "ds_drop" then
+    match DriverDs.step st.bld req with
+    | some b => ({ st with bld := b }, "ok")
+    | none => (st, "bad-request")
+  else handleMain st req
 
 end RdVerif.Driver
